@@ -73,6 +73,26 @@ def special_cases(rnd):
                 if bad == 0 or pos % 3 == 0:
                     out.append(mk("v", b"\x01s\0\0" + raw))
                     out.append(mk("as", struct.pack("<I", len(raw)) + raw))
+    # variants whose signature holds several complete types, with data for exactly the first one (nothing after it that could
+    # trip a "too much data" check): must be rejected for the signature alone
+    FIXSZ = {"y": 1, "b": 4, "n": 2, "q": 2, "i": 4, "u": 4, "x": 8, "t": 8, "d": 8}
+    for le in (True, False):
+        for first, sz in FIXSZ.items():
+            for rest in ("i", "s", "y", "ai", "v", "(y)", "x"):
+                vs = (first + rest).encode()
+                head = bytes([len(vs)]) + vs + b"\0"
+                out.append(mk("v", head + b"\0" * ((-len(head)) % sz) + b"\0" * sz, le))
+                out.append(mk("yv", b"\x07" + head + b"\0" * ((-(1 + len(head))) % sz) + b"\0" * sz, le))
+    # one-byte length words with the top bit set: variant signatures / signature values of 120..255 bytes, valid and cut short
+    for le in (True, False):
+        for k in (118, 125, 126, 127, 128, 129, 200, 253):
+            ssig = "(" + "y" * k + ")"
+            good = Msg(4, 0, 1, {1: "/a", 2: "a.b", 3: "S"}, "yvy", (7, Variant(ssig, tuple(range(k))), 0xEE), le=le).encode()
+            out.append(good)
+            out.append(good[:-1])
+            out.append(Msg(4, 0, 1, {1: "/a", 2: "a.b", 3: "S"}, "gs", ("i" * (k + 2), "x"), le=le).encode())
+    for k in (254, 255):
+        out.append(Msg(4, 0, 1, {1: "/a", 2: "a.b", 3: "S"}, "g", ("y" * k,)).encode())
     # body signature nesting of arrays and structs at 31..34 with empty arrays
     for k in (31, 32, 33):
         out.append(mk("a" * k + "i", struct.pack("<I", 0)))
@@ -214,6 +234,35 @@ def run(ctx):
             rep.violation("accessor/iterator values differ from independent decoding for %s:\n impl %s\n spec %s" % (h[:200], first[:300], s.split("dump=", 1)[1][:300]),
                           {"cmd": "load d", "input": h, "impl": d, "spec": s})
         ndump += 1
+    # the message-size limit at its boundary: total wire length (header incl. its padding to 8 + body) against a small
+    # max_message_size, for every header padding 0..7, both byte orders: accepted iff length <= max, and equal to the model
+    n_size = 0
+    if not ctx.get("replay"):
+        from rawbus import Msg as _Msg
+        slines, smeta = [], []
+        for mx in (400, 4096):
+            for le in (True, False):
+                for mlen in range(1, 10):
+                    base = len(_Msg(4, 0, 1, {1: "/a", 2: "a.b", 3: "M" * mlen}, "ay", (b"",), le=le).encode())
+                    for extra in range(-9, 10):
+                        nbytes = mx + extra - base
+                        if nbytes < 0:
+                            continue
+                        bb = _Msg(4, 0, 1, {1: "/a", 2: "a.b", 3: "M" * mlen}, "ay", (bytes(nbytes),), le=le).encode()
+                        slines.append("loadmax %d m %s" % (mx, vlib.hexs(bb))); smeta.append((mx, len(bb)))
+        si, scr = vlib.run_lines(info["wire_h"], slines)
+        sm, _ = vlib.run_lines(info["model"], slines)
+        for line, err in scr:
+            rep.violation("implementation crashed at the message-size limit: %s: %s" % (line[:200], err[-500:]), {"input": line, "stderr": err})
+        for l, (mx, total), a, b_ in zip(slines, smeta, si, sm):
+            if a == "!CRASH":
+                continue
+            n_size += 1
+            accepted = "msgs=-" not in a
+            if accepted != (total <= mx):
+                rep.violation("a message of %d bytes is %s with max_message_size %d" % (total, "accepted" if accepted else "rejected", mx), {"cmd": "loadmax", "input": l, "impl": a, "model": b_})
+            elif a.split(" ")[0] != b_.split(" ")[0] or a.split("msgs=")[1] != b_.split("msgs=")[1]:
+                rep.violation("loader outcome at the size limit differs from model: %s vs %s" % (a[:80], b_[:80]), {"cmd": "loadmax", "input": l, "impl": a, "model": b_, "names": "correspondence wire_h/loadmax vs Wire.Message.have_message"}, found_input=False)
     rd_cov = {}
     if not ctx.get("replay"):
         from props import c01_reader
@@ -227,7 +276,7 @@ def run(ctx):
                 "non-trivial = the implementation produced a message; distinct = distinct byte strings",
         "samples": [{"kind": k, "hex": h[:160], "impl": i[:120]} for (k, _), h, i in list(zip(cases, hexes, impl))[::max(1, len(cases) // 10)]][:10],
         "input_distribution": {"kinds": kinds, "corruption_reasons_hit": reasons, "reader_leg": {k: v for k, v in rd_cov.items() if k not in ("reader_samples", "reader_rule")}},
-        "accessor_dumps_compared": ndump, "reader_rule": rd_cov.get("reader_rule", ""),
+        "accessor_dumps_compared": ndump, "size_limit_cases": n_size, "reader_rule": rd_cov.get("reader_rule", ""),
         "traces_validated_against_impl": len(cases), "disagreements_checked": len(rep.violations),
     })
     rep.assumptions = ["loader fed whole buffers here; chunkings are C11", "128 MiB bodies are not materialised: limits are exercised through length words",
